@@ -355,7 +355,8 @@ def translate_tables():
     h1 = R.strip(open(os.path.join(MUX, "h1.rs")).read())
     wb, _ = R.fn_body(h1, "writable")
     lines.append("Definition gen_h1_close_after_close : bool := %s." % (
-        "true" if re.search(r"if\s+stream\.context\.keep_alive_frontend\s*&&\s*stream\.context\.keep_alive_backend\s*\{", wb) else "false"))
+        "true" if (re.search(r"let\s+ended_by_close\s*=\s*!stream\.context\.keep_alive_backend\s*&&\s*stream\.back\.expects\s*>\s*0\s*;", wb)
+                   and re.search(r"if\s+stream\.context\.keep_alive_frontend\s*&&\s*!ended_by_close\s*\{", wb)) else "false"))
     lines.append("Definition gen_tables : tables :=\n  mkT gen_esd gen_connect gen_redirect_fallback gen_front_timeout gen_back_timeout\n"
                  "      (fun h2 => if h2 then gen_end_arm_h2 else gen_end_arm_h1) gen_default_answer_effs gen_force_effs gen_known_codes\n"
                  "      gen_conn_retries gen_retry_guard_ge gen_rearm_after_write gen_rearm_delay_close gen_rearm_wait gen_rearm_backend_wait\n      gen_h1_close_after_close.")
@@ -487,6 +488,7 @@ HARNESS_BINS = ["c02", "c02bb"]
 HEAD_CL = b"HTTP/1.1 200 OK\r\nContent-Length: 20\r\nX-Test: abcdefgh\r\n\r\n"
 HEAD_CH = b"HTTP/1.1 200 OK\r\nTransfer-Encoding: chunked\r\n\r\n"
 HEAD_CD = b"HTTP/1.1 200 OK\r\nConnection: close\r\n\r\n"
+HEAD_CLC = b"HTTP/1.1 200 OK\r\nContent-Length: 20\r\nConnection: close\r\n\r\n"
 BODY = b"0123456789abcdefghij"
 CHUNKED = b"a\r\n0123456789\r\na\r\nabcdefghij\r\n0\r\n\r\n"
 PRE = ["req_head", "connect_ok", "req_sent"]
@@ -494,11 +496,15 @@ PRE = ["req_head", "connect_ok", "req_sent"]
 
 def predict_inputs(kind, k):
     """-> (list of admissible input schedules for the model, expected body length of a relayed 200 or None)"""
-    if kind in ("close_at", "reset_at", "stall_after", "chunked_close_at", "close_delim_at"):
-        head, full = {"chunked_close_at": (HEAD_CH, HEAD_CH + CHUNKED), "close_delim_at": (HEAD_CD, HEAD_CD + BODY)}.get(kind, (HEAD_CL, HEAD_CL + BODY))
+    if kind in ("close_at", "reset_at", "stall_after", "chunked_close_at", "close_delim_at", "cl_close_at"):
+        head, full = {"chunked_close_at": (HEAD_CH, HEAD_CH + CHUNKED), "close_delim_at": (HEAD_CD, HEAD_CD + BODY),
+                      "cl_close_at": (HEAD_CLC, HEAD_CLC + BODY)}.get(kind, (HEAD_CL, HEAD_CL + BODY))
         k = min(k, len(full))
         lost = "back_timeout" if kind == "stall_after" else "back_close"
-        if kind == "close_delim_at" and k >= len(head):
+        if kind == "cl_close_at" and k == len(full):
+            # complete, length-delimited, "Connection: close": relayed, client connection kept
+            return [PRE + ["back_head", "back_end", "front_write"]], 20
+        if kind in ("close_delim_at", "cl_close_at") and k >= len(head):
             pre = PRE + ["back_no_keepalive", "back_head"]
             return [pre + ["back_close", "front_write"], pre + ["front_write", "back_close", "front_write"]], k - len(head)
         if k == 0:
@@ -571,13 +577,15 @@ def bb_scenarios(tier, rng):
     s += [("refuse", 0), ("stall", 0), ("stall_after", 65), ("reset_at", 0), ("reset_at", 65), ("garbage", 0),
           ("nohost", 0), ("nobackend", 0), ("redirect", 0), ("slow_client", 0),
           ("chunked_close_at", 60), ("chunked_close_at", len(HEAD_CH + CHUNKED)),
-          ("close_delim_at", 50), ("close_delim_at", len(HEAD_CD + BODY)), ("keepalive_close", 0)]
+          ("close_delim_at", 50), ("close_delim_at", len(HEAD_CD + BODY)), ("keepalive_close", 0),
+          ("cl_close_at", 30), ("cl_close_at", 66), ("cl_close_at", len(HEAD_CLC + BODY))]
     if tier != "quick":
         s += [("close_at", k) for k in range(0, len(HEAD_CL + BODY) + 1)]
         s += [("reset_at", k) for k in range(0, len(HEAD_CL + BODY), 3)]
         s += [("chunked_close_at", k) for k in range(0, len(HEAD_CH + CHUNKED) + 1, 2)]
         s += [("close_delim_at", k) for k in range(len(HEAD_CD) - 3, len(HEAD_CD + BODY) + 1)]
         s += [("stall_after", k) for k in (0, 20, 58, 60, 77)]
+        s += [("cl_close_at", k) for k in range(len(HEAD_CLC) - 2, len(HEAD_CLC + BODY) + 1)]
     return s
 
 
@@ -658,6 +666,10 @@ def extra_stage(tier, rng, work):
                 continue
             start, n, blen = index[i]
             want = sorted(set(classify_events(p) for p in preds[start:start + n]))
+            if kind == "cl_close_at" and HEAD_CLC and len(HEAD_CLC) <= k < len(HEAD_CLC + BODY):
+                # the proxy ends the message by closing (its only means); the declared
+                # Content-Length lets the client see the truncation: that is an abort to the client
+                want = ["abort" if w == "relay" else w for w in want]
             got = classify_obs(rs[0])
             if got not in want:
                 bad.append((i, "bb-mismatch", "%s %d: client observed '%s', the automaton predicts %s" % (kind, k, got, want)))
